@@ -26,7 +26,7 @@ def run_one(seed_dir, repo, props):
     tmp = tempfile.mkdtemp(prefix="gcmverif_seed_")
     try:
         shutil.copytree(os.path.join(repo, "gcmpy"), os.path.join(tmp, "gcmpy"), ignore=shutil.ignore_patterns("__pycache__"))
-        r = subprocess.run(["git", "apply", "--unsafe-paths", "--directory", tmp, os.path.join(seed_dir, "patch.diff")], capture_output=True, text=True, cwd=tmp)
+        r = subprocess.run(["git", "apply", "--include=*/gcmpy/*", "--unsafe-paths", "--directory", tmp, os.path.join(seed_dir, "patch.diff")], capture_output=True, text=True, cwd=tmp)
         if r.returncode != 0:
             r = subprocess.run(["patch", "-p1", "-i", os.path.join(seed_dir, "patch.diff")], capture_output=True, text=True, cwd=tmp)
             if r.returncode != 0:
